@@ -2446,6 +2446,27 @@ void SPxLPBase<R>::writeLPF(
 // Specialization for writing MPS format
 // ---------------------------------------------------------------------------------------------------------------------
 
+/// writes a name field of an MPS record: the whole name, padded with blanks to the 8 columns of the fixed format
+static inline void MPSwriteName(std::ostream& os, const char* name)
+{
+   size_t len = (name == nullptr) ? 0 : strlen(name);
+
+   if(name != nullptr)
+      os << name;
+
+   for(; len < 8; ++len)
+      os << ' ';
+}
+
+/// prints "  <value>" for an MPS record: 15 decimals, scientific notation for magnitudes that would not fit
+static inline void MPSformatValue(char* buf, size_t size, Real value)
+{
+   if(spxAbs(value) < 1e15)
+      spxSnprintf(buf, size, "  %.15" SOPLEX_REAL_FORMAT, value);
+   else
+      spxSnprintf(buf, size, "  %.16e", (double) value);
+}
+
 template <class R>
 static void MPSwriteRecord(
    std::ostream&  os,
@@ -2457,20 +2478,28 @@ static void MPSwriteRecord(
    const R     value2 = 0.0
 )
 {
+   // A name is written in full (padded to the 8 columns of the fixed format) and separated from the next field by blanks:
+   // cutting it to 8 characters made different names equal and glued two 8-character names together.
+   // Numbers are printed with 15 decimals; from 1e15 on that would be hundreds of digits (more than the record buffer and than the
+   // reader's line can hold), so large magnitudes are printed in scientific notation with 17 significant digits.
    char buf[81];
 
-   spxSnprintf(buf, sizeof(buf), " %-2.2s %-8.8s", (indicator == nullptr) ? "" : indicator,
-               (name == nullptr)      ? "" : name);
+   spxSnprintf(buf, sizeof(buf), " %-2.2s ", (indicator == nullptr) ? "" : indicator);
    os << buf;
+   MPSwriteName(os, name);
 
    if(name1 != nullptr)
    {
-      spxSnprintf(buf, sizeof(buf), "%-8.8s  %.15" SOPLEX_REAL_FORMAT, name1, (Real) value1);
+      os << "  ";
+      MPSwriteName(os, name1);
+      MPSformatValue(buf, sizeof(buf), (Real) value1);
       os << buf;
 
       if(name2 != nullptr)
       {
-         spxSnprintf(buf, sizeof(buf), "   %-8.8s  %.15" SOPLEX_REAL_FORMAT, name2, (Real) value2);
+         os << "   ";
+         MPSwriteName(os, name2);
+         MPSformatValue(buf, sizeof(buf), (Real) value2);
          os << buf;
       }
    }
